@@ -83,6 +83,31 @@ Theorem C19_partial : forall eps p t, 0 <= eps -> params_pos p -> cousin_guard t
 Proof. exact rt_prop_partial. Qed.
 Print Assumptions C19_partial.
 
+(* Wider guard `cousin_guard2` (Spec/PC19.v): additionally (c) a node may have any number of
+   children with children when all its grandchildren are leaves (single-level comparisons, where
+   the division by 1 - left_idx/right_idx is exact).  cousin_guard t = true implies
+   cousin_guard2 t = true. *)
+Theorem C19_cousins_partial2 : forall eps p t, 0 <= eps -> params_pos p -> cousin_guard2 t = true ->
+  cousins_ok eps (p_ss p) (p_sts p) (reingold_tilford p t) = true.
+Proof. exact rt_cousins_partial2. Qed.
+Print Assumptions C19_cousins_partial2.
+
+(* the shape of every K1 failure (contrapositive): wherever two nodes of one depth come closer than
+   min(sibling, subtree separation), some node of the tree has >= 2 children with children and
+   either (>= 3 children and a grandchild with children) or (exactly two children and one of the
+   facing walks does not reach the bottom of its subtree) *)
+Theorem C19_cousins_failure_shape : forall p t, params_pos p ->
+  cousins_ok 0 (p_ss p) (p_sts p) (reingold_tilford p t) = false -> cousin_guard2 t = false.
+Proof. exact rt_cousins_failure_shape. Qed.
+Print Assumptions C19_cousins_failure_shape.
+
+Definition comb3 : tree :=
+  nd [nd [leaf; leaf; leaf]; leaf; nd [leaf]; nd [leaf; leaf; leaf; leaf]; nd [leaf; leaf]].
+Example C19_guard2_examples :
+  cousin_guard comb3 = false /\ cousin_guard2 comb3 = true /\ tsize comb3 = 16%nat
+  /\ cousin_guard2 k1_tree = false /\ cousin_guard2 k1b_tree = false.
+Proof. repeat split; vm_compute; reflexivity. Qed.
+
 (* the explicit recursion bound (`fuel`) of the model's contour walk never cuts the walk short, for
    every tree: any fuel >= the height of the left subtree computes the same shift *)
 Theorem C19_fuel_sufficient : forall sts left right li ri f, (dheight left <= f)%nat ->
